@@ -667,6 +667,24 @@ func (m *Model) ruleKEYSPACE(r *Results) {
 			}
 		}
 	}
+	// the keyspace token is replaced wherever it occurs (a statement may name it more than once:
+	// self-join, sub-select, UNION)
+	for _, f := range m.Funcs {
+		if !m.inPkg(f) {
+			continue
+		}
+		m.eachCall(f, func(c ssa.CallInstruction) {
+			callee := c.Common().StaticCallee()
+			if callee == nil || callee.Pkg == nil || callee.Pkg.Pkg.Path() != "strings" || callee.Name() != "Replace" || len(c.Common().Args) != 4 {
+				return
+			}
+			if oldS, ok := constString(c.Common().Args[1]); !ok || !strings.HasPrefix(oldS, "$") {
+				return
+			}
+			k, ok := stripConv(c.Common().Args[3]).(*ssa.Const)
+			r.check(ok && k.Value != nil && k.Int64() < 0, rule, m.declName(f)+" / every occurrence of the token is replaced", m.instrPos(c), "strings.Replace with n < 0", "only a bounded number of occurrences of the keyspace token is replaced: a statement that names the keyspace again (self-join, sub-select) keeps the raw token and fails, or worse, is parsed as a bind parameter")
+		})
+	}
 	r.floor(rule, 2)
 }
 
@@ -1270,6 +1288,89 @@ func (m *Model) ruleINSERTGUARD(r *Results) {
 			r.check(m.rowsAffectedConsulted(dw.Site), rule, dw.Site.key(m, dw.Variant)+" / RowsAffected", m.instrPos(dw.Site.Call), "the statement's RowsAffected is consulted", what+" UPDATE whose RowsAffected is never consulted: when the condition does not hold nothing is written, yet the operation reports success and posts an event (new CAS, next revision number) for a change the row never saw")
 		}
 	}
+	// a CAS-guarded statement that matched no row makes the operation FAIL: from the edge on which
+	// RowsAffected was found zero only returns whose error is non-nil on every path are reachable
+	// (reporting the version that is there "because the body is the same anyway" accepts a stale CAS)
+	done := map[ssa.CallInstruction]bool{}
+	for _, dw := range m.docWrites() {
+		casGuard := false
+		for _, c := range dw.W.Where {
+			if colEqParam(c, "cas") != nil {
+				casGuard = true
+			}
+		}
+		if !casGuard || done[dw.Site.Call] || dw.Site.Helper != nil {
+			continue
+		}
+		done[dw.Site.Call] = true
+		fn := dw.Site.Call.Parent()
+		for _, iff := range m.zeroRowsTests(dw.Site) {
+			cd := condOf(iff)
+			eq, ok := cd.equalEdge()
+			if !ok && cd.Op == token.LSS {
+				eq, ok = cd.succWhen(true), true
+			}
+			if !ok || iff.Block().Parent() != fn {
+				continue
+			}
+			bad := ""
+			reach := reachableFrom(eq, newCut())
+			for _, ret := range returnsOf(fn) {
+				if !reach[ret.Block().Index] || len(ret.Results) == 0 {
+					continue
+				}
+				ev := ret.Results[len(ret.Results)-1]
+				if isErrorType(ev.Type()) && !m.errNonNil(ev, ret.Block(), 0) {
+					bad = m.instrPos(ret)
+				}
+			}
+			pos := m.instrPos(iff)
+			if bad != "" {
+				pos = bad
+			}
+			// ... and the failure is a CAS mismatch, which is what the retry loops look for; another
+			// error (key exists) is made only where the insert-only option bit was found set
+			if addOnly := m.sgConst("AddOnly"); addOnly != nil {
+				cf := newCut()
+				kfr := m.closureFrame(fn)
+				for _, d := range m.decisions(fn, kfr) {
+					c2 := d.C
+					if _, ok2 := c2.equalEdge(); !ok2 || c2.Y == nil {
+						continue
+					}
+					x, y := c2.X, c2.Y
+					if isZeroConst(x) {
+						x, y = y, x
+					}
+					if !isZeroConst(y) {
+						continue
+					}
+					rx, _ := m.resolve(x, kfr)
+					if bo, ok := stripConv(rx).(*ssa.BinOp); ok && bo.Op == token.AND {
+						if cst, ok := bo.Y.(*ssa.Const); ok && cst.Value != nil && constant.Compare(cst.Value, token.EQL, addOnly) {
+							d.cutNotEqual(cf) // the edge on which the bit is set
+						}
+					}
+				}
+				reachNoFlag := reachableFrom(eq, cf)
+				badS := ""
+				for _, b2 := range fn.Blocks {
+					if !reachNoFlag[b2.Index] {
+						continue
+					}
+					for _, in2 := range b2.Instrs {
+						if ld, ok := in2.(*ssa.UnOp); ok && ld.Op == token.MUL && isErrorType(ld.Type()) {
+							if g, isG := ld.X.(*ssa.Global); isG && g.Pkg != nil && g.Pkg.Pkg.Path() == sgbucketPath {
+								badS = g.Name() + " at " + m.instrPos(ld)
+							}
+						}
+					}
+				}
+				r.check(badS == "", rule, m.declName(fn)+" / a refused CAS write is reported as a CAS mismatch", m.instrPos(iff), "behind the zero-rows edge a sentinel error other than the CAS mismatch is made only where the insert-only bit is set", "behind the zero-rows edge the error "+badS+" can be produced although the insert-only option is not set: read-modify-write loops (Update, sub-document writes) retry on a CAS mismatch only, so a lost race surfaces to their callers as this error and the update is dropped")
+			}
+			r.check(bad == "", rule, m.declName(fn)+" / CAS-guarded statement that matched no row fails", pos, "every return behind the zero-rows edge reports an error", "when the CAS-guarded statement matched no row (the CAS was stale) a return is reachable that reports no error: the caller is told its write is in, although it was computed from a version that is no longer current and nothing was stored")
+		}
+	}
 	// the KV Add entry points reach only guarded inserts
 	for _, name := range []string{"Add", "AddRaw"} {
 		ep := m.lookupMethod(m.A.CollectionType.Obj().Name(), name)
@@ -1590,4 +1691,120 @@ func (m *Model) xattrCarryGo(r *Results, rule, key, pos string, dw *docWrite, x 
 	}
 	reach := sc.Call.Block() == ld.Block() || !c.blocks[ld.Block().Index] && reachableFromSuccs(sc.Call.Block(), c)[ld.Block().Index]
 	r.check(!reach, rule, key, pos, "the row's xattrs as read reach the statement only on paths where the row is known to have had a body (otherwise they are replaced)", "the row's xattrs, as read, can be written back together with the new body on a path that has not established that the row had a body: a document re-created over a tombstone inherits the tombstone's xattrs")
+}
+
+// zeroRowsTests: the branch instructions that compare the RowsAffected of site s with 0 (or < 1).
+func (m *Model) zeroRowsTests(s *SQLSite) []*ssa.If {
+	call, ok := s.Call.(*ssa.Call)
+	if !ok {
+		return nil
+	}
+	var counts []ssa.Value
+	var visit func(v ssa.Value, depth int)
+	visit = func(v ssa.Value, depth int) {
+		if depth > 4 || v.Referrers() == nil {
+			return
+		}
+		for _, ref := range *v.Referrers() {
+			switch x := ref.(type) {
+			case *ssa.Extract:
+				visit(x, depth+1)
+			case *ssa.Call:
+				if x.Common().IsInvoke() && x.Common().Value == v && x.Common().Method.Name() == "RowsAffected" {
+					for _, r2 := range *x.Referrers() {
+						if ex, ok := r2.(*ssa.Extract); ok && ex.Index == 0 {
+							counts = append(counts, ex)
+						}
+					}
+				}
+			case *ssa.Phi:
+				visit(x, depth+1)
+			case *ssa.MakeInterface:
+				visit(x, depth+1)
+			}
+		}
+	}
+	visit(call, 0)
+	var out []*ssa.If
+	for _, iff := range allIfs(call.Parent()) {
+		cd := condOf(iff)
+		if cd.X == nil || cd.Y == nil {
+			continue
+		}
+		for _, n := range counts {
+			if stripConv(cd.X) != n {
+				continue
+			}
+			k, ok := stripConv(cd.Y).(*ssa.Const)
+			if !ok || k.Value == nil {
+				continue
+			}
+			if (cd.Op == token.EQL || cd.Op == token.NEQ) && k.Int64() == 0 || cd.Op == token.LSS && k.Int64() == 1 {
+				out = append(out, iff)
+			}
+		}
+	}
+	return out
+}
+
+// errNonNil: the error value v is non-nil whenever control is in block blk: a freshly made error,
+// a sentinel, a phi of such values, or a value every path to blk has tested and found non-nil.
+func (m *Model) errNonNil(v ssa.Value, blk *ssa.BasicBlock, depth int) bool {
+	if depth > 6 {
+		return false
+	}
+	switch x := v.(type) {
+	case *ssa.Const:
+		return x.Value != nil
+	case *ssa.MakeInterface:
+		return true
+	case *ssa.UnOp:
+		if _, isG := x.X.(*ssa.Global); isG && x.Op == token.MUL {
+			return true
+		}
+	case *ssa.Call:
+		if f := x.Common().StaticCallee(); f != nil && f.Pkg != nil && (f.Pkg.Pkg.Path() == "fmt" || f.Pkg.Pkg.Path() == "errors") {
+			return true
+		}
+		// a package helper that makes the error: non-nil on each of its returns
+		if f := x.Common().StaticCallee(); f != nil && m.inPkg(f) && f.Blocks != nil && f.Signature.Results().Len() == 1 {
+			rets := returnsOf(f)
+			for _, ret := range rets {
+				if !m.errNonNil(ret.Results[0], ret.Block(), depth+1) {
+					return false
+				}
+			}
+			return len(rets) > 0
+		}
+	case *ssa.Phi:
+		for i, e := range x.Edges {
+			if !m.errNonNil(e, x.Block().Preds[i], depth+1) {
+				return false
+			}
+		}
+		return true
+	}
+	// tested: with the edges on which v was found non-nil removed, blk is out of reach
+	fn := blk.Parent()
+	c := newCut()
+	for _, iff := range allIfs(fn) {
+		cd := condOf(iff)
+		eq, ok := cd.equalEdge()
+		if !ok || !(isNilConst(cd.X) || isNilConst(cd.Y)) {
+			continue
+		}
+		other := cd.X
+		if isNilConst(cd.X) {
+			other = cd.Y
+		}
+		if stripConv(other) != stripConv(v) {
+			continue
+		}
+		for _, sc := range iff.Block().Succs {
+			if sc != eq {
+				c.cutEdge(iff.Block(), sc)
+			}
+		}
+	}
+	return len(c.edges) > 0 && !entryReach(fn, c)[blk.Index]
 }
